@@ -1,3 +1,4 @@
+pub mod c04;
 pub mod c05;
 
 use crate::case::Sink;
@@ -5,6 +6,7 @@ use crate::Ctx;
 
 pub fn run(ctx: &Ctx, sink: &mut Sink) -> bool {
     match ctx.prop.as_str() {
+        "C04" => c04::run_prop(ctx, sink),
         "C05" => c05::run_prop(ctx, sink),
         _ => return false,
     }
